@@ -95,16 +95,21 @@ func newEvent(eventType string, ts time.Time, payload interface{}) (Event, error
 	return Event{Type: eventType, TS: formatTime(ts), Data: data}, nil
 }
 
-func newShortID(existing map[string]*Task) (string, error) {
+func newShortID(existing map[string]*Task, pruned map[string]TombstoneInfo) (string, error) {
 	const maxAttempts = 64
 	for i := 0; i < maxAttempts; i++ {
 		id, err := shortID()
 		if err != nil {
 			return "", err
 		}
-		if _, exists := existing[id]; !exists {
-			return id, nil
+		if _, exists := existing[id]; exists {
+			continue
 		}
+		// A pruned id must never be issued again: replay ignores every event that mentions it.
+		if _, gone := pruned[id]; gone {
+			continue
+		}
+		return id, nil
 	}
 	return "", errors.New("failed to generate unique id")
 }
